@@ -67,6 +67,12 @@ pub enum Cmd {
     SpecErr(bool, u32),
     /// `trap '…' EXIT`
     TrapExit(List),
+    /// `trap '…' USR1`
+    TrapSig(List),
+    /// `st N $(kill -s USR1 $$)`: the shell receives the trapped signal while the command runs
+    Raise(u32),
+    /// `st 0 $(kill -s USR1 $$) ${unset?}`: the signal, then an expansion error in the same command
+    RaiseErr,
 }
 
 /// One command line of a script: commands, or text that does not parse.
@@ -171,6 +177,9 @@ fn sx_cmd(c: &Cmd) -> String {
         Cmd::RedirErr(k) => format!("(rederr {k})"),
         Cmd::SpecErr(w, st) => format!("(specerr {} {st})", *w as u8),
         Cmd::TrapExit(b) => format!("(trapexit {})", sx_list(b)),
+        Cmd::TrapSig(b) => format!("(trapsig {})", sx_list(b)),
+        Cmd::Raise(n) => format!("(raise {n})"),
+        Cmd::RaiseErr => "(raiseerr)".into(),
     }
 }
 
@@ -359,6 +368,9 @@ fn to_cmd(x: &Sx) -> Option<Cmd> {
         }),
         ("specerr", 3) => Cmd::SpecErr(num(&v[1])? != 0, num(&v[2])?),
         ("trapexit", 2) => Cmd::TrapExit(to_list(&v[1])?),
+        ("trapsig", 2) => Cmd::TrapSig(to_list(&v[1])?),
+        ("raise", 2) => Cmd::Raise(num(&v[1])?),
+        ("raiseerr", 1) => Cmd::RaiseErr,
         _ => return None,
     })
 }
@@ -768,7 +780,17 @@ impl Render {
                 }
                 self.simple(&w)
             }
-            Cmd::TrapExit(b) => {
+            Cmd::Raise(n) => {
+                let k = *self.rng.pick(&["$(kill -s USR1 $$)", "`kill -s USR1 $$`", "$(kill -USR1 $$; st 3)"]);
+                self.simple(&["st".into(), n.to_string(), k.into()])
+            }
+            Cmd::RaiseErr => self.simple(&[
+                "st".into(),
+                "0".into(),
+                "$(kill -s USR1 $$)".into(),
+                "${unset_variable_u?}".into(),
+            ]),
+            Cmd::TrapExit(b) | Cmd::TrapSig(b) => {
                 // the action is rendered on one line inside single quotes, without surface variation
                 let text = b
                     .iter()
@@ -779,7 +801,8 @@ impl Render {
                     })
                     .collect::<Vec<_>>()
                     .join("; ");
-                self.simple(&["trap".into(), format!("'{text}'"), "EXIT".into()])
+                let cond = if matches!(c, Cmd::TrapSig(_)) { "USR1" } else { "EXIT" };
+                self.simple(&["trap".into(), format!("'{text}'"), cond.into()])
             }
             Cmd::Def(n, c) => {
                 self.out.push_str(n);
@@ -850,6 +873,8 @@ pub struct Gen {
     pub max_depth: u32,
     /// plant shell errors (expansion, assignment, redirection, special built-in) — C10
     pub errors: bool,
+    /// a trap for USR1 is set by the first line: commands that signal the shell may be generated
+    pub sig: bool,
     /// ranks of the function names defined so far in generation order (calls prefer these, so that
     /// function bodies — `return`, `break` through a call, locals — are actually executed)
     pub defined: Vec<usize>,
@@ -871,6 +896,14 @@ impl Gen {
                 3 => Cmd::Unknown,
                 4 => Cmd::Call(":", 0),
                 _ => Cmd::St(2),
+            };
+        }
+        if self.sig && self.rng.chance(1, 12) {
+            // the trapped signal arrives while this command runs
+            return if self.errors && self.rng.chance(1, 4) {
+                Cmd::RaiseErr
+            } else {
+                Cmd::Raise(*self.rng.pick(&[0, 0, 1, 2]))
             };
         }
         if self.errors && self.rng.chance(1, 7) {
@@ -912,7 +945,8 @@ impl Gen {
                     Cmd::Call(NAMES[self.rng.below(self.call_limit.min(CALLABLE))], k)
                 }
             }
-            85..=86 => Cmd::Unknown,
+            85 => Cmd::Unknown,
+            86 => Cmd::Unknown,
             87 => {
                 let o = |g: &mut Gen| if g.rng.chance(1, 2) { Some(g.rng.below(4) as u32) } else { None };
                 let w = o(self);
@@ -1026,7 +1060,8 @@ impl Gen {
         let d = depth + 1;
         match self.rng.below(12) {
             0 => Cmd::Group(self.list(d, 3)),
-            1 if self.rng.chance(1, 3) => Cmd::AsyncWait(self.list(d, 2)),
+            // `wait` would be interrupted by the trapped signal: no asynchronous lists in such scripts
+            1 if !self.sig && self.rng.chance(1, 3) => Cmd::AsyncWait(self.list(d, 2)),
             1 => Cmd::Subshell(self.list(d, 3)),
             2 | 3 => {
                 let c = self.cond(d);
@@ -1092,6 +1127,25 @@ impl Gen {
         if self.rng.chance(1, 5) {
             // job control in a script: pipelines then run in one more subshell
             lines.push(Line::Cmds(vec![Item(Pipeline(false, vec![Cmd::SetM(true)]), vec![])]));
+        }
+        self.sig = self.rng.chance(1, 4);
+        if self.sig {
+            // a signal trap set before anything else; its action may end in a divert
+            let mut body = vec![Item(Pipeline(false, vec![Cmd::Probe(98)]), vec![])];
+            if self.rng.chance(2, 3) {
+                let tail = match self.rng.below(9) {
+                    0 | 1 => Cmd::Ret(Some(0)),
+                    2 => Cmd::Ret(None),
+                    3 => Cmd::Ret(Some(3)),
+                    4 => Cmd::Exit(Some(4)),
+                    5 => Cmd::St(2),
+                    6 => Cmd::Brk(1),
+                    7 => Cmd::Cont(1),
+                    _ => Cmd::Exit(None),
+                };
+                body.push(Item(Pipeline(false, vec![tail]), vec![]));
+            }
+            lines.push(Line::Cmds(vec![Item(Pipeline(false, vec![Cmd::TrapSig(body)]), vec![])]));
         }
         if self.errors {
             // EXIT trap and errexit are set up front in most scripts
